@@ -422,6 +422,13 @@ async fn standin_overall_deadline() {
     assert!(r.is_err(), "all attempts hang: the result must be the timeout error");
     assert!(took <= Duration::from_millis(500), "the operation completed after {took:?}, the configured overall deadline is 200ms");
     assert!(starts(&log).len() <= 3, "attempts were started after the overall deadline: {:?}", starts(&log));
+    // every attempt started well before the deadline, all hang: the deadline counts from the start of the operation
+    let Rig { mut set, log: _log, tx: _tx } = rig(3, Some(Duration::from_millis(200)), Some(Duration::from_millis(600)), Some(1));
+    let t0 = std::time::Instant::now();
+    let r = tokio::time::timeout(Duration::from_secs(5), set.finish()).await.expect("finish() never completed");
+    let took = t0.elapsed();
+    assert!(r.is_err());
+    assert!(took <= Duration::from_millis(850), "the operation completed after {took:?}, the configured overall deadline is 600ms");
 }
 
 /// A.tcp.connecting [C10] (bounded stand-in for `TcpConnecting::connect`, class A: `mut self` receiver, async blocks):
